@@ -15,6 +15,7 @@ pub mod c11;
 pub mod c12;
 pub mod c13;
 pub mod c14;
+pub mod c15;
 pub mod c16;
 pub mod c17;
 pub mod c18;
@@ -24,5 +25,5 @@ pub mod c20;
 use crate::runner::PropDef;
 
 pub fn all() -> Vec<PropDef> {
-    vec![c01::prop(), c02::prop(), c09::prop(), c10::prop(), c03::prop(), c04::prop(), c12::prop(), c05::prop(), c06::prop(), c07::prop(), c08::prop(), c11::prop(), c13::prop(), c14::prop(), c16::prop(), c17::prop(), c18::prop(), c19::prop(), c20::prop()]
+    vec![c01::prop(), c02::prop(), c09::prop(), c10::prop(), c03::prop(), c04::prop(), c12::prop(), c05::prop(), c06::prop(), c07::prop(), c08::prop(), c11::prop(), c13::prop(), c14::prop(), c15::prop(), c16::prop(), c17::prop(), c18::prop(), c19::prop(), c20::prop()]
 }
